@@ -288,11 +288,104 @@ def _has_zero(tree):
     return any(_has_zero(ch) for _, ch in tree)
 
 
-PARTS = [Part("sessions", cases(), check, n_quick=1500, n_thorough=6000)]
+# ---------------------------------------------------------------- payload operations counted one by one
+OPS = ["iadd", "iadd", "ilshift", "ilshift", "imul", "add", "radd", "mul", "rmul", "sub", "isub", "iadd_box",
+       "ilshift_box", "mul_box"]
+VALS = [0, 0, 1, 2, 3, -1, -2, -3, 5, 0.5, -0.5]
+
+
+@st.composite
+def op_cases(draw):
+    """a straight-line sequence of payload operations on a few boxes, inside one collection session"""
+    n = draw(st.integers(1, 4))
+    return {"init": [draw(st.sampled_from(VALS)) for _ in range(n)],
+            "ops": draw(st.lists(st.tuples(st.sampled_from(OPS), st.integers(0, n - 1), st.integers(0, n - 1),
+                                           st.sampled_from(VALS)), min_size=1, max_size=14))}
+
+
+def check_ops(case, rec):
+    """the counts must equal the operations executed, whatever the values involved (zero, equal to the
+    current value, negative, cancelling ...): + and reflected + are adds, * and reflected * are multiplies,
+    <<= is an update, *= a multiply and an update, += an update plus an add unless the box held 0 (pinned by
+    the repository's test_plus_metrics), - and -= are not counted"""
+    from fibertree import Payload
+    K.reset_metrics()
+    boxes = [Payload(v) for v in case["init"]]
+    vals = list(case["init"])
+    own = {"payload_add": 0, "payload_mul": 0, "payload_update": 0}
+    d = tempfile.mkdtemp(prefix="vf-c15ops-")
+    try:
+        Metrics.beginCollect(os.path.join(d, "k"))
+        try:
+            for op, i, j, v in case["ops"]:
+                if op == "iadd":
+                    own["payload_update"] += 1
+                    own["payload_add"] += vals[i] != 0
+                    boxes[i] += v
+                    vals[i] = vals[i] + v
+                elif op == "iadd_box":
+                    own["payload_update"] += 1
+                    own["payload_add"] += vals[i] != 0
+                    rhs = vals[j]
+                    boxes[i] += boxes[j]
+                    vals[i] = vals[i] + rhs
+                elif op == "ilshift":
+                    own["payload_update"] += 1
+                    boxes[i] <<= v
+                    vals[i] = v
+                elif op == "ilshift_box":
+                    own["payload_update"] += 1
+                    boxes[i] <<= boxes[j]
+                    vals[i] = vals[j]
+                elif op == "imul":
+                    own["payload_update"] += 1
+                    own["payload_mul"] += 1
+                    boxes[i] *= v
+                    vals[i] = vals[i] * v
+                elif op == "add":
+                    own["payload_add"] += 1
+                    r = boxes[i] + v
+                elif op == "radd":
+                    own["payload_add"] += 1
+                    r = v + boxes[i]
+                elif op == "mul":
+                    own["payload_mul"] += 1
+                    r = boxes[i] * v
+                elif op == "mul_box":
+                    own["payload_mul"] += 1
+                    r = boxes[i] * boxes[j]
+                elif op == "rmul":
+                    own["payload_mul"] += 1
+                    r = v * boxes[i]
+                elif op == "sub":
+                    r = boxes[i] - v
+                elif op == "isub":
+                    boxes[i] -= v
+                    vals[i] = vals[i] - v
+            dump = Metrics.dump()
+        finally:
+            Metrics.endCollect()
+    finally:
+        shutil.rmtree(d, ignore_errors=True)
+    got = dump.get("Compute", {})
+    for name, mine in own.items():
+        if got.get(name, 0) != mine:
+            raise Violation("op-count-" + name, f"{name}: Metrics reports {got.get(name, 0)}, {mine} were executed; "
+                            f"boxes {case['init']}, operations {case['ops']}")
+    for b, v in zip(boxes, vals):
+        if b.value != v:
+            raise Violation("transparency-ops", f"a box holds {b.value}, expected {v} (collection on)")
+    rec.cls("ops")
+    rec.cls("assign-equal-value", any(op == "ilshift" for op, *_ in case["ops"]))
+    rec.nontrivial(len(case["ops"]) >= 4 and own["payload_update"] >= 2)
+
+
+PARTS = [Part("sessions", cases(), check, n_quick=1500, n_thorough=6000),
+         Part("payload-ops", op_cases(), check_ops, n_quick=1500, n_thorough=10000)]
 
 
 def coverage_warnings(rec):
-    n = max(1, rec.evaluations)
+    n = max(1, sum(v for k, v in rec.classes.items() if k.startswith("sessions:history") and k[16:].isdigit()))
     out = []
     for k, floor in (("sessions:accumulation-nonzero", 0.2), ("sessions:traced-ranks>=2", 0.3),
                      ("sessions:history-match-main-rank", 0.2), ("sessions:flushed-mid-session", 0.1),
